@@ -286,6 +286,11 @@ func (e *CEnv) ident(name string) (Val, error) {
 					return Val{}, fmt.Errorf("free variable %s not bound", name)
 				}
 				_ = i
+				if strings.HasPrefix(e.fn.Synthetic, "bound method wrapper") {
+					// the receiver of a bound method is captured by value
+					pv.T = fv.Type()
+					return pv, nil
+				}
 				if pv.Addr != nil {
 					v := c.load(e.st, pv.Addr)
 					v.T = fv.Type().(*types.Pointer).Elem()
@@ -869,6 +874,21 @@ func (e *CEnv) callExpr(x *CExpr) (Val, error) {
 		c.smt.declareFun("adler32_of_str", []string{"Str"}, "Int")
 		t := app("adler32_of_str", as[0].Term)
 		return Val{T: tInt, Term: t}, nil
+	case "payload":
+		// payload(x, T): the *T stored in interface value x (meaningful when x was built from a *T)
+		if len(x.Args) != 2 {
+			return Val{}, fmt.Errorf("payload(iface, StructType)")
+		}
+		iv, err := e.eval(x.Args[0])
+		if err != nil {
+			return Val{}, err
+		}
+		st, err := e.resolveType(&CType{Kind: "name", Name: strings.ReplaceAll(x.Args[1].String(), " ", "")})
+		if err != nil {
+			return Val{}, err
+		}
+		c.smt.declareFun("iface_payload", []string{"Int"}, "Int")
+		return Val{T: types.NewPointer(st), Term: app("iface_payload", c.termOf(iv))}, nil
 	case "objOf":
 		as, err := evalArgs()
 		if err != nil {
@@ -1247,6 +1267,52 @@ func (e *CEnv) addLoc(ms *ModSet, loc *CExpr) error {
 		name, sort := c.elemHeap(et)
 		c.heapSorts[name] = sort
 		ms.whole[name] = true
+		return nil
+	}
+	if loc.Op == "call" && loc.Name == "allMapsLike" {
+		// allMapsLike(T.f): every map of the type of field f of struct T (whole map heaps)
+		if len(loc.Args) != 1 || loc.Args[0].Op != "field" || loc.Args[0].Args[0].Op != "ident" {
+			return fmt.Errorf("allMapsLike(Type.field)")
+		}
+		st, err := e.resolveType(&CType{Kind: "name", Name: loc.Args[0].Args[0].Name})
+		if err != nil {
+			return err
+		}
+		_, ft, _ := findField(st, loc.Args[0].Name)
+		if ft == nil {
+			return fmt.Errorf("no field %s", loc.Args[0].Name)
+		}
+		if _, ok := ft.Underlying().(*types.Map); !ok {
+			return fmt.Errorf("allMapsLike needs a map-typed field")
+		}
+		dn, vn, ln, _, _ := c.mapHeaps(ft)
+		ms.whole[dn], ms.whole[vn], ms.whole[ln] = true, true, true
+		return nil
+	}
+	if loc.Op == "star" && loc.Name == "[]" && loc.Args[0].Op == "star" && loc.Args[0].Name == "[]" {
+		// m[*][*]: the contents of every inner map of the map of maps m
+		base, err := e.eval(loc.Args[0].Args[0])
+		if err != nil {
+			return err
+		}
+		mt, ok := base.T.Underlying().(*types.Map)
+		if !ok {
+			return fmt.Errorf("[*][*] needs a map of maps")
+		}
+		if _, ok := mt.Elem().Underlying().(*types.Map); !ok {
+			return fmt.Errorf("[*][*] needs a map of maps")
+		}
+		odn, ovn, _, ks, _ := c.mapHeaps(base.T)
+		od := c.heapGet(e.st, odn, c.heapSorts[odn])
+		ov := c.heapGet(e.st, ovn, c.heapSorts[ovn])
+		m := base.Term
+		dn, vn, ln, _, _ := c.mapHeaps(mt.Elem())
+		p := func(r string) string {
+			return fmt.Sprintf("(exists ((k %s)) (and (select (select %s %s) k) (= (select (select %s %s) k) %s)))", ks, od, m, ov, m, r)
+		}
+		ms.addPred(dn, p)
+		ms.addPred(vn, p)
+		ms.addPred(ln, p)
 		return nil
 	}
 	if loc.Op == "call" && loc.Name == "deref" {
